@@ -25,6 +25,7 @@ class Obligation:
     timeout: float = 60.0        # CrossHair per_condition_timeout (CPU s); wall kill at 1.5x + 20
     reals: bool = False
     opaque: bool = False
+    sqrt_free: bool = False      # x ** 0.5 on a symbolic number returns a fresh non-negative real
     twin: bool = True            # run the reachability twin
     bounds: str = ''             # human-readable bounds of this obligation
     group: str = ''              # which part of the property this obligation belongs to
